@@ -30,7 +30,7 @@ func sub(m map[string]string, ss ...string) []string {
 }
 
 func propC09(c *Ctx) {
-	c.Explanation = "Decides, for all inputs and schedules, the structural mechanisms behind 'exactly the addressed socket or nobody': (D1) findEndpointLocked is loop-free and its complete path table is the four-step most-specific match of the property - keys (LocalPort,LocalAddress,RemotePort,RemoteAddress) = full id, id without local address, id without remote part, local port only, in that order, returning at the first hit; (D2) deliverPacket hands the packet to exactly the endpoint found and reports true only then; NIC.DeliverTransportPacket builds the id from the parsed ports and the route addresses and tries NIC demuxer, stack demuxer, default handler, unknown-destination handler each only when all previous ones declined; registerEndpoint rolls back exactly the protocols it registered; singleRegisterEndpoint rejects duplicates and inserts in the same critical section; (D3) DeliverNetworkPacket passes a packet to a network endpoint only when getRef found the destination address on this NIC, and getRef creates a temporary endpoint only under promiscuous mode or an owning subnet; forwarding only when enabled; (D4) endpoints/NIC/Stack tables are accessed only under their mutexes (lockset); (D5) Subnet.Contains and Route.Match return true only after every byte matched under the mask. D7 also pairs every tryIncRef of the module with a release, hand-over or return on every path on which it succeeded. (D8) the isRegistered flag follows registration and inline unregistration at once (shared with C03/H9); D7 also tables the reference counter itself (decRef removes at zero, tryIncRef never revives zero). NOT decided: that the maps contain what a history of register/close calls implies; reference counting."
+	c.Explanation = "Decides, for all inputs and schedules, the structural mechanisms behind 'exactly the addressed socket or nobody': (D1) findEndpointLocked is loop-free and its complete path table is the four-step most-specific match of the property - keys (LocalPort,LocalAddress,RemotePort,RemoteAddress) = full id, id without local address, id without remote part, local port only, in that order, returning at the first hit; (D2) deliverPacket hands the packet to exactly the endpoint found and reports true only then; NIC.DeliverTransportPacket builds the id from the parsed ports and the route addresses and tries NIC demuxer, stack demuxer, default handler, unknown-destination handler each only when all previous ones declined; registerEndpoint rolls back exactly the protocols it registered; singleRegisterEndpoint rejects duplicates and inserts in the same critical section; (D3) DeliverNetworkPacket passes a packet to a network endpoint only when getRef found the destination address on this NIC, and getRef creates a temporary endpoint only under promiscuous mode or an owning subnet; forwarding only when enabled; (D4) endpoints/NIC/Stack tables are accessed only under their mutexes (lockset); (D5) Subnet.Contains and Route.Match return true only after every byte matched under the mask. D7 also pairs every tryIncRef of the module with a release, hand-over or return on every path on which it succeeded. (D8) the isRegistered flag follows registration and inline unregistration at once (shared with C03/H9); D7 also tables the reference counter itself (decRef removes at zero, tryIncRef never revives zero). (D9) the echo request's route reference is released on every way out (shared with C13/I1,I2); D6 also decides udp Connect's local port. NOT decided: that the maps contain what a history of register/close calls implies; reference counting."
 	c.Assumptions = []string{"map lookups with equal keys observed inside one critical section return the same value"}
 
 	// D4 lockset
@@ -223,6 +223,11 @@ func propC09(c *Ctx) {
 		c.Ordered(d6, fn, []string{"register new", "unregister old", "record new scope"}, []func(Site) bool{isCall("(*udp.endpoint).registerWithStack"), isCall("(*stack.Stack).UnregisterTransportEndpoint"), isStore("udp.endpoint.regNICID")})
 	}
 
+	udpConnectPortRule(c, d6)
+
+	d9 := c.Rule("D9", "K2 pairing (shared with C13/I1,I2)", "the route reference an echo request holds on the pinged address is released on every way out", 4)
+	echoRouteRefRule(c, d9)
+
 	d8 := c.Rule("D8", "K2 must-follow + K7 coupled updates (shared with C03/H9)", "the endpoint's isRegistered flag follows every registration and inline unregistration at once", 6)
 	registrationFlagRule(c, d8)
 
@@ -311,4 +316,37 @@ func maskedMatchRule(c *Ctx, id string) {
 			}
 		}
 	}
+}
+
+// udpConnectPortRule: udp Connect registers the endpoint under its bound local
+// port: the LocalPort of the id it builds is the endpoint's own port on every
+// path except the one of a still unbound endpoint (state initial), where it is
+// 0 and registerWithStack picks an ephemeral port. Shared by C09 (D6: the
+// registration names the socket's port) and C06 (E3: datagrams carry it).
+func udpConnectPortRule(c *Ctx, rule string) {
+	fn := c.Fn(rule, "(*udp.endpoint).Connect")
+	if fn == nil {
+		return
+	}
+	n := 0
+	t := NewTermer(fn)
+	Instrs(fn, func(in ssa.Instruction) {
+		st, ok := in.(*ssa.Store)
+		if !ok {
+			return
+		}
+		fv, base := fieldOf(st.Addr)
+		if fv == nil || fv.Name() != "LocalPort" || !typeNamed(base.Type(), "stack.TransportEndpointID") {
+			return
+		}
+		if root, _ := allocRoot(st.Addr); root == nil {
+			return
+		}
+		n++
+		term := t.T(st.Val)
+		okTerm := termEq(term, "phi{$0.id.LocalPort | 0}")
+		okZero, why := ZeroOnlyUnder(fn, st.Val, "($0.state == 0)")
+		c.Check(okTerm && okZero, rule, FuncName(fn)+"/id-local-port", c.pos(in), "the registration id carries the endpoint's bound port (0 only for an unbound endpoint)", "the id udp Connect registers under does not carry the endpoint's bound local port on every bound/connected path: value "+term+"; "+why)
+	})
+	c.Check(n == 1, rule, FuncName(fn)+"/id-built-once", c.P.Pos(fn.Pos()), "one id literal", "expected exactly one TransportEndpointID literal in Connect")
 }
